@@ -176,6 +176,39 @@ def compare_path_filenames(F):
     raise AnalysisBroken("ComparePathFilenames: expected a single return")
 
 
+def get_filename_shape(F):
+    """XFile::GetFilename(p) is the final component of p as std::filesystem splits it: filename() of a path built from the
+    argument itself, unmodified. (A member is named by the input path's final component; names with other characters in
+    them, such as a backslash on this platform, are part of that component.)"""
+    fn = F.fn(XF + "GetFilename", nparams=1)
+    p0 = P(fn, 0)
+    inst = XF + "GetFilename#final-component"
+    req = "returns std::filesystem::path(argument).filename(): the argument is not rewritten before it is split"
+    rets = returns(fn)
+    if len(rets) != 1:
+        raise AnalysisBroken("GetFilename: expected a single return")
+    from .c05 import alias_defs, resolve
+    t = resolve(fn.term(rets[0]["value"]), alias_defs(fn))
+    # string(filename(path(X)))
+    x = t
+    seen = []
+    while x[0] in ("call", "ctor"):
+        seen.append(x[1].split("::")[-1] if x[1] else "?")
+        if x[0] == "call":
+            x = x[2] if x[2] is not None else (x[3][0] if x[3] else ("?",))
+        else:
+            x = x[2][0] if x[2] else ("?",)
+    if "filename" not in seen:
+        raise AnalysisBroken("GetFilename: return is not path(...).filename() (shape not recognised)")
+    if x == p0:
+        return [ok("R-SIB", inst, fn.loc(rets[0]["id"]), fn.qn, req, fmt_term(t))]
+    # built from something else: a rewritten copy of the argument?
+    stores = [nd for nd in fn.nodes if nd["k"] in CALLS and (nd.get("fq") or "").startswith("std::") and nd.get("fname") in
+              ("replace", "replace_if", "transform", "erase", "remove", "for_each")] + [nd for nd in fn.nodes if nd["k"] in ("BinaryOperator", "CompoundAssignOperator") and nd.get("op", "").endswith("=") and nd["op"] not in ("==", "!=", "<=", ">=")]
+    return [bad("R-SIB", inst, fn.loc(rets[0]["id"]), fn.qn, req,
+                "the path is built from %s%s" % (fmt_term(x), ", which the function rewrites first (%s)" % ", ".join(sorted({nd.get("fname") or nd.get("op") for nd in stores})) if stores else ""))]
+
+
 def duplicate_scan(F):
     fn = F.fn(AF + "VerifySortedContainerHasNoDuplicateNames", nparams=1)
     nm = P(fn, 0)
@@ -186,6 +219,9 @@ def duplicate_scan(F):
     if not loops:
         # algorithm form: it = std::adjacent_find(names.begin(), names.end(), (a, b) -> IsEqual(a, b)); if (it != names.end()) throw
         for nd in fn.nodes:
+            if nd["k"] in CALLS and (nd.get("fq") or "") == "std::adjacent_find" and len(nd.get("args", [])) == 2:
+                return [bad("R-SIB", inst, fn.loc(nd["id"]), fn.qn, req,
+                            "adjacent names are compared with the default `==` of std::adjacent_find (case-sensitive), not with StringUtility::IsEqual")]
             if nd["k"] in CALLS and (nd.get("fq") or "") == "std::adjacent_find" and len(nd.get("args", [])) == 3:
                 a = [fn.term(x) for x in nd["args"]]
                 rng = a[0][0] == "call" and a[0][1].endswith("begin") and a[0][2] == nm and a[1][0] == "call" and a[1][1].endswith("end") and a[1][2] == nm
@@ -356,6 +392,7 @@ def check(F, run, tier):
     run.add(lexicographic_less(lt, SU + "IsEqualCaseInsensitive"))
     run.add(is_equal_shape(F))
     run.add(compare_path_filenames(F))
+    run.add(get_filename_shape(F))
     run.add(duplicate_scan(F))
     run.add(paths_are_equal(F))
     run.add(extension_matches(F))
